@@ -1670,6 +1670,10 @@ class Sim:
         argv = ["jade", "submit-jobs", "config.json", "-o", self.outname]
         if mode == "local":
             argv.append("--local") if self.scen.get("force_local") else None
+        if self.scen.get("cli_params"):
+            from . import scenario as _sc
+
+            argv += _sc.cli_options(self.scen)
         self.spawn_top("submit", argv, "login")
         try:
             self.drive()
